@@ -44,7 +44,10 @@ Inductive supmode := SupDefault | SupScript (s : script).
 Record cfg := mkCfg {
   c_pre : script; c_ps : script; c_stop : script;
   c_sup : supmode;
-  c_link : option nat            (* spawn_linked: the supervisor *)
+  c_link : option nat;           (* spawn_linked: the supervisor *)
+  c_local : bool                 (* hosted on a ThreadLocalActorSpawner (ractor/src/thread_local/inner.rs):
+                                    start() links BEFORE pre_start, and the final state (not Send) is
+                                    never reported to the supervisor *)
 }.
 
 Inductive pc :=
@@ -385,7 +388,8 @@ Definition after_cb (w : world) (i : nat) (c : cb) (f : fin) : world :=
   | Some a =>
     match c, f with
     | PreStart, ROk =>
-      let '(w1, ok) := match c_link (a_cfg a) with
+      (* a thread-local actor was linked before pre_start (see [seg]) *)
+      let '(w1, ok) := match (if c_local (a_cfg a) then None else c_link (a_cfg a)) with
                        | Some s => try_link w i s
                        | None => (w, true) end in
       if ok then emit (upd w1 i (fun a => upd_pc (upd_notify a true) Spawned)) (TSpawnRet i true)
@@ -398,7 +402,7 @@ Definition after_cb (w : world) (i : nat) (c : cb) (f : fin) : world :=
     | Handle _, ROk | Sup _, ROk => upd w i (fun a => upd_pc a Idle)
     | Handle _, RErr t | Handle _, RPanic t | Sup _, RErr t | Sup _, RPanic t =>
       finish (upd w i (fun a => upd_status a 5)) i (SFailed i t)
-    | PostStop, ROk => finish w i (STerminated i true (a_reason a))
+    | PostStop, ROk => finish w i (STerminated i (negb (c_local (a_cfg a))) (a_reason a))
     | PostStop, RErr t | PostStop, RPanic t => finish w i (SFailed i t)
     end
   end.
@@ -427,7 +431,13 @@ Definition seg (w : world) (i : nat) : world * bool :=
     | NotCreated | Done => (w, false)
     | NotStarted =>
       if negb (Nat.eqb (a_status a) 0) then (start_failed w i, false)   (* ActorAlreadyStarted *)
-      else (start_cb (upd w i (fun a => upd_status a 1)) i PreStart, true)
+      else
+        let w0 := upd w i (fun a => upd_status a 1) in
+        (* thread-local start(): "setup supervision synchronously", then the builder runs pre_start *)
+        let '(w1, ok) := match (if c_local (a_cfg a) then c_link (a_cfg a) else None) with
+                         | Some s => try_link w0 i s
+                         | None => (w0, true) end in
+        if ok then (start_cb w1 i PreStart, true) else (start_failed w1 i, false)
     | Spawned => (start_cb w i PostStart, true)
     | InCb c rest f parked =>
       match rest with
